@@ -309,6 +309,11 @@ public:
       return std::move(O);
     }
     if (const auto *SE = dyn_cast<StmtExpr>(E)) {
+      // ({ ...; value; }): the statements are in the CFG already; the expression stands for its value
+      if (const CompoundStmt *CS = SE->getSubStmt())
+        if (!CS->body_empty())
+          if (const auto *LE = dyn_cast<Expr>(CS->body_back()))
+            return J(LE);
       O["k"] = "stmtexpr";
       return std::move(O);
     }
